@@ -5,6 +5,8 @@ mod common;
 mod prim;
 mod pipeline;
 mod c05;
+mod c11;
+mod corpus;
 
 use common::Opts;
 use std::path::PathBuf;
@@ -27,6 +29,7 @@ fn main() {
     common::install_panic_hook();
     let code = common::with_big_stack(move || match cmd.as_str() {
         | "c05" => c05::run(&opts),
+        | "c11" => c11::run(&opts),
         | other => {
             eprintln!("unknown property {other}");
             2
